@@ -229,11 +229,33 @@ def run(ctx, out, tier):
                     v = util.const_val(ctx, cb, a)
                     if isinstance(v, str):
                         consts.add(v)
+        if not consts:
+            # `["OK", "OK."].iter().any(|ok| reply.eq_ignore_ascii_case(ok))`: the accepted replies are a constant table
+            for bi, j, s in cb.assigns():
+                rv = s["rv"]
+                k = rv["op"].get("k") if rv["k"] == "use" and isinstance(rv.get("op"), dict) else None
+                if isinstance(k, dict) and k.get("uneval") and re.search(r"\[&str; \d+\]", k.get("ty") or ""):
+                    rows = util.const_table(ctx, k)
+                    if rows and all(isinstance(x, str) for x in rows):
+                        consts |= set(rows)
         rslots = util.return_slots(cb)
+        verdicts = []       # (block, stmt, is_none, payload operand or None)
         for bi, j, s in cb.assigns():
             if s["lhs"]["l"] in rslots and not s["lhs"]["p"] and s["rv"]["k"] == "agg" and s["rv"].get("variant") == "Ok":
                 pe = E.operand(s["rv"]["ops"][0])
-                is_none = pe[0] == "agg" and pe[1].endswith("::None")
+                if pe[0] == "agg" and (pe[1].endswith("::None") or pe[1].endswith("::Some")):
+                    verdicts.append((bi, s, pe[1].endswith("::None"), s["rv"]["ops"][0]))
+        if not verdicts:
+            # the verdict is built first and wrapped later (`.map(verdict_of).ok_or_else(..)`): the
+            # None / Some(text) values of type Option<String> are the verdict sites
+            reach = cfg_of(cb).reachable
+            for bi, j, s in cb.assigns():
+                rv = s["rv"]
+                if bi in reach and not s["lhs"]["p"] and rv["k"] == "agg" and rv.get("path") == "std::option::Option" \
+                        and re.match(r"^std::option::Option<std::string::String>$", cb.local_ty(s["lhs"]["l"]) or ""):
+                    verdicts.append((bi, s, rv.get("variant") == "None", rv["ops"][0] if rv["ops"] else None))
+        for bi, s, is_none, payload in verdicts:
+            if True:
                 gs = util.guards(ctx, cb, bi)
                 cmpg = [(vals, e) for br, vals, e in gs if e[0] == "call" and re.search(r"<impl str>::eq_ignore_ascii_case$|PartialEq.*::eq$|starts_with$|<impl str>::contains$", e[1])]
                 if is_none:
@@ -250,7 +272,8 @@ def run(ctx, out, tier):
                         out.viol("C19.reply", "C19.reply|pass-unguarded", ctx.where(cb, s["span"]),
                                  "the check passes (Ok(None)) on a path that is not guarded by the reply being OK: e.g. an absent reply text is taken as a pass")
                 else:
-                    labs = ctx.prov.read_operand(cb, s["rv"]["ops"][0])
+                    src = payload if (payload is not None and s["rv"].get("variant") != "Ok") else s["rv"]["ops"][0]
+                    labs = ctx.prov.read_operand(cb, src)
                     if P.has_path(labs, "message", "content") or P.has_path(labs, "content"):
                         r += 1
                     else:
